@@ -1341,7 +1341,8 @@ class String(ConstantOpcode):
     priority = Unicode.priority + 1
 
     def encode_body(self) -> bytes:
-        return repr(self.arg).encode("utf-8")
+        # a quoted, escaped, newline-terminated ASCII literal (non-ASCII text cannot be written)
+        return repr(self.arg).encode("ascii") + b"\n"
 
     @classmethod
     def validate(cls, obj):
@@ -1647,7 +1648,8 @@ class ShortBinString(DynamicLength, ConstantOpcode):
     length_bytes = 1
 
     def encode_body(self) -> bytes:
-        return repr(self.arg).encode("utf-8")
+        # the raw bytes of the string (pickletools decodes them as latin-1), not its repr
+        return self.arg.encode("latin-1")
 
     @classmethod
     def validate(cls, obj):
@@ -1663,7 +1665,8 @@ class BinString(DynamicLength, ConstantOpcode):
     signed = True
 
     def encode_body(self) -> bytes:
-        return repr(self.arg).encode("utf-8")
+        # the raw bytes of the string (pickletools decodes them as latin-1), not its repr
+        return self.arg.encode("latin-1")
 
     @classmethod
     def validate(cls, obj):
